@@ -327,10 +327,19 @@ Proof.
 Qed.
 
 (* ---------------------------------------------------------------- the run over its own output *)
-Theorem run_replay c : forall its si so carry out tl,
+Lemma quiet_seq_app c : forall A s B nk,
+  quiet_seq c s (A ++ B) nk = quiet_seq c s A (next_of B nk) && quiet_seq c (fold_left (adv c) (map snd A) s) B nk.
+Proof.
+  induction A as [|[cs e] r IH]; intros s B nk; simpl; auto.
+  rewrite IH, andb_assoc. f_equal. f_equal.
+  destruct r as [|[cs2 e2] r2]; simpl; auto.
+Qed.
+
+(* every token of the output is left alone by the pass over the output *)
+Theorem run_quiet c : forall its si so carry out tl,
   inv si -> rel si so -> side si so ->
   (is_fresh si so -> nk_is (head_kind its) KLParen = false) ->
-  run c si carry its = (out, tl) -> run c so [] out = (out, []).
+  run c si carry its = (out, tl) -> quiet_seq c so out None = true.
 Proof.
   induction its as [|[cs t] rest IH]; intros si so carry out tl Hinv R Hs Hf Hrun.
   - simpl in Hrun. inversion Hrun; subst. reflexivity.
@@ -355,6 +364,18 @@ Proof.
         rewrite Est in Es. inversion Es; subst.
         eapply head_not_juxt; eauto.
         destruct (inv_adv c si t Hinv) as (_ & _ & I3 & _). exact I3.
-    + rewrite run_quiet_seq by exact Q.
-      rewrite (IH _ _ _ _ _ I' R' S' F' Er). reflexivity.
+    + rewrite quiet_seq_app.
+      assert (Hn : next_of out' None = head_kind out') by (destruct out' as [|[? ?] ?]; reflexivity).
+      rewrite Hn, Q. simpl. exact (IH _ _ _ _ _ I' R' S' F' Er).
+Qed.
+
+Theorem run_replay c its si so carry out tl :
+  inv si -> rel si so -> side si so ->
+  (is_fresh si so -> nk_is (head_kind its) KLParen = false) ->
+  run c si carry its = (out, tl) -> run c so [] out = (out, []).
+Proof.
+  intros Hinv R Hs Hf Hrun.
+  pose proof (run_quiet c its si so carry out tl Hinv R Hs Hf Hrun) as Q.
+  pose proof (run_quiet_seq c out so [] Q) as H. rewrite app_nil_r in H. simpl in H.
+  rewrite H. now rewrite app_nil_r.
 Qed.
